@@ -50,7 +50,7 @@ def request_for(kind):
     return "CONNECT", httpcore.URL(scheme=b"http", host=b"origin.test", port=80, target=b"target.test:443"), [(b"Host", b"target.test:443")]
 
 
-def run_sync(kind, n, lead, cuts, headcuts, reads):
+def run_sync(kind, n, lead, cuts, headcuts, reads, prebody=False):
     net = SimNet(make_world(kind, n, lead, cuts, headcuts))
     pool = httpcore.ConnectionPool(network_backend=SimBackend(net), max_connections=2)
     method, url, headers = request_for(kind)
@@ -59,6 +59,8 @@ def run_sync(kind, n, lead, cuts, headcuts, reads):
     try:
         resp = pool.handle_request(httpcore.Request(method, url, headers=headers))
         out["status"] = resp.status
+        if prebody:
+            resp.read()  # the (empty) body of the 101 / 2xx, read to its end while the response is still open
         ns = resp.extensions["network_stream"]
         for m in reads:
             try:
@@ -78,7 +80,7 @@ def run_sync(kind, n, lead, cuts, headcuts, reads):
     return out
 
 
-def run_async(kind, n, lead, cuts, headcuts, reads):
+def run_async(kind, n, lead, cuts, headcuts, reads, prebody=False, concurrent=False):
     """The async twin: the same scenario inside a caller task on the virtual loop."""
     import asyncio
 
@@ -97,12 +99,27 @@ def run_async(kind, n, lead, cuts, headcuts, reads):
         try:
             resp = await pool.handle_async_request(httpcore.Request(method, url, headers=headers))
             out["status"] = resp.status
+            if prebody:
+                await resp.aread()
             ns = resp.extensions["network_stream"]
             for m in reads:
                 if sum(len(r["got"]) for r in log) >= n:
                     break
                 got = await ns.read(m)
                 log.append({"m": m, "got": list(got)})
+            if concurrent:
+                # another task of the caller is parked in read() on the handed-over stream (the peer is
+                # silent until it is written to): the write below must still go straight through
+                async def reader():
+                    try:
+                        await ns.read(5)
+                    except BaseException:  # noqa
+                        pass
+
+                rt = loop.create_task(reader(), name="r1")
+                out["reader"] = rt
+                for _ in range(3):
+                    await asyncio.sleep(0)
             before = sum(len(w[0]) for w in net.streams[0].written)
             await ns.write(b"\x00caller-data\xff")
             w = b"".join(x[0] for x in net.streams[0].written)
@@ -119,6 +136,9 @@ def run_async(kind, n, lead, cuts, headcuts, reads):
         if t.done():
             break
         ready = [op for op in net.pending if op.fut is not None and not op.fut.done() and net.ready(op)]
+        if concurrent:
+            # the parked read stays pending (the peer has nothing to say before it is written to)
+            ready = [op for op in ready if not (op.kind == "read" and out.get("reader") is not None and sum(len(r["got"]) for r in log) >= n)]
         if not ready:
             break
         op = ready[0]
@@ -127,7 +147,13 @@ def run_async(kind, n, lead, cuts, headcuts, reads):
             op.fut.set_result(res[1])
         else:
             op.fut.set_exception(res[1])
+    rt_ = out.pop("reader", None)
+    if rt_ is not None and not rt_.done():
+        rt_.cancel()
+        while loop.step() is not False:
+            pass
     if not t.done():
+        out["error"] = out["error"] or "hang: the caller did not get through (blocked although the network had nothing pending for it)"
         t.cancel()
         while loop.step() is not False:
             pass
@@ -188,15 +214,21 @@ def run(prop, tier):
     seen = set()
     for idx, (kind, n, lead, cuts, headcuts, reads) in enumerate(cases(tier, rng)):
         mode = "sync" if idx % 2 == 0 else "async"
-        out = (run_sync if mode == "sync" else run_async)(kind, n, lead, cuts, headcuts, reads)
+        # variants of the caller: it reads the (empty) body first; a second task of it is parked in read()
+        variant = {}
+        if idx % 5 == 3:
+            variant = {"prebody": True}
+        elif idx % 5 == 4 and mode == "async":
+            variant = {"concurrent": True}
+        out = (run_sync if mode == "sync" else run_async)(kind, n, lead, cuts, headcuts, reads, **variant)
         evals += 1
         tr = {"n": n, "lead": lead, "cuts": cuts, "reads": out["reads"], "idle_after": bool(out["idle_after"]), "write_ok": bool(out["write_ok"]) and not out["error"]}
-        key = repr((kind, tr))
+        key = repr((kind, tr, sorted(variant)))
         if key in seen:
             continue
         seen.add(key)
         traces.append(tr)
-        metas.append({"kind": kind, "mode": mode, "headcuts": headcuts, "asked": reads, "error": out["error"], "status": out.get("status")})
+        metas.append({"kind": kind, "mode": mode, "headcuts": headcuts, "asked": reads, "error": out["error"], "status": out.get("status"), "variant": sorted(variant)})
     res2, stats = tlc.validate_traces("MCUpgradeTrace", trace_cfg(), traces, nd=1)
     verdicts = [r[0] for r in res2]
     rejected = [(t, m, v) for t, m, v in zip(traces, metas, verdicts) if v[0] != "ACCEPT"]
